@@ -191,7 +191,7 @@ def op_invalid_name(form, r):
     if not c:
         return None
     n, anc = c
-    bad = r.choice([f"9{TOK}", f"{TOK} b", f"{TOK}$", f"-{TOK}", f"{TOK}/x", f".{TOK}", f"{TOK}(1)"])
+    bad = r.choice([f"9{TOK}", f"{TOK} b", f"{TOK}$", f"-{TOK}", f"{TOK}/x", f".{TOK}", f"{TOK}(1)", f"{TOK}À-Ö]1", f"{TOK}]", f"{TOK}×", f"÷{TOK}"])
     n["c"]["name"] = bad
     return Plan(form, tokens=[common.survey_clean(bad)], row=rows_of(form)[id(n)][0], depth=len(anc))
 
